@@ -11,5 +11,5 @@ OkLine(r) == CASE r.ev = "roundtrip" -> r.round_ok /\ r.same_ct /\ r.prefix_kept
                [] r.ev = "tamper-sweep" -> r.bit >= 0
                [] OTHER -> FALSE
 INSTANCE LinesTrace WITH Ok <- OkLine
-ASSUME TLCSet(1, 0) /\ TLCSet(2, {})
+ASSUME TLCSet(1, 0) /\ TLCSet(2, {}) /\ TLCSet(3, ndJsonDeserialize("trace.ndjson"))
 ====
